@@ -1,0 +1,50 @@
+//go:build verif
+
+package scheduler
+
+import (
+	"sort"
+	"time"
+)
+
+// VerifInvoke is called with phase "begin" right before the goroutine that
+// invokes an entry is spawned and with phase "end" when that goroutine is done.
+var VerifInvoke func(phase, op, workflow string, next time.Time)
+
+func verifInvoke(phase string, e *entry) {
+	if h := VerifInvoke; h != nil {
+		name := ""
+		if e.Job != nil {
+			name = e.Job.String()
+		}
+		h(phase, e.EntryType.String(), name, e.Next)
+	}
+}
+
+// VerifSetFixedTime sets the daemon's clock (zero value: real time).
+func VerifSetFixedTime(t time.Time) { setFixedTime(t) }
+
+// VerifRunTick executes one tick of the daemon for the given minute.
+func (s *Scheduler) VerifRunTick(t time.Time) { s.run(t) }
+
+// VerifNextTick exposes the tick arithmetic.
+func (s *Scheduler) VerifNextTick(t time.Time) time.Time { return s.nextTick(t) }
+
+// VerifStartWatcher starts the directory watcher without the real-time loop.
+func (s *Scheduler) VerifStartWatcher(done chan any) { s.entryReader.Start(done) }
+
+// VerifLoaded returns the file names currently held by the entry reader.
+func (s *Scheduler) VerifLoaded() []string {
+	er, ok := s.entryReader.(*entryReaderImpl)
+	if !ok {
+		return nil
+	}
+	er.dagsLock.Lock()
+	defer er.dagsLock.Unlock()
+	var names []string
+	for k := range er.dags {
+		names = append(names, k)
+	}
+	sort.Strings(names)
+	return names
+}
